@@ -52,6 +52,8 @@ GROUPS = {
         ('imported parent', HEAD + 'import ns2\nstruct S extends ns2.X\n    b Int32\n', A),
         ('imported parent field clash', HEAD + 'import ns2\nstruct S extends ns2.X\n    xf Int32\n', R),
         ('imported union parent', HEAD + 'import ns2\nunion_closed U extends ns2.XU\n    c\n', A),
+        ('child union sorts before its parent', HEAD + 'union_closed Zeta\n    a\nunion_closed Beta extends Zeta\n    b\nstruct S\n    f Beta\n', A),
+        ('child struct sorts before its parent', HEAD + 'struct Zeta\n    a Int32\nstruct Beta extends Zeta\n    b Int32\n', A),
     ],
     'subtypes': [
         ('well formed tree', HEAD + 'struct R\n    union\n        a RA\n        b RB\n    n Int32\nstruct RA extends R\n    x Int32\nstruct RB extends R\n    y Int32\n', A),
@@ -122,6 +124,13 @@ GROUPS = {
         ('annotation type qualified by the own namespace', HEAD + 'annotation_type T\n    x Int32\nannotation X = ns.T(x=1)\n', R),
         ('annotation type in a namespace not imported', HEAD + 'annotation X = ns2.T(x=1)\n', R),
         ('annotation type in an unknown namespace', HEAD + 'annotation X = zz.T(x=1)\n', R),
+        ('annotation qualified by a struct', HEAD + 'annotation In = Omitted("i")\nstruct X\n    g Int32\nstruct S\n    a Int32\n        @X.In\n', R),
+        ('annotation qualified by an alias', HEAD + 'annotation In = Omitted("i")\nalias X = String\nstruct S\n    a Int32\n        @X.In\n', R),
+        ('annotation qualified by a builtin', HEAD + 'annotation In = Omitted("i")\nstruct S\n    a Int32\n        @String.In\n', R),
+        ('annotation qualified by an annotation', HEAD + 'annotation In = Omitted("i")\nstruct S\n    a Int32\n        @In.In\n', R),
+        ('annotation qualified by a route', HEAD + 'annotation In = Omitted("i")\nroute r (Void, Void, Void)\nstruct S\n    a Int32\n        @r.In\n', R),
+        ('annotation qualified by an unknown name', HEAD + 'annotation In = Omitted("i")\nstruct S\n    a Int32\n        @zz.In\n', R),
+        ('annotation of an imported namespace', HEAD + 'import ns2\nstruct S\n    a Int32\n        @ns2.Zz\n', R),
     ],
     'examples': [
         ('missing required', HEAD + 'struct S\n    a Int32\n    b Int32\n    example default\n        a = 1\n', R),
@@ -144,6 +153,10 @@ GROUPS = {
         ('refs through alias of list', HEAD + 'struct T\n    g Int32\n    example default\n        g = 1\nalias LT = List(T)\nstruct S\n    ts LT\n    example default\n        ts = [default]\n', A),
         ('ref through alias of nullable struct', HEAD + 'struct T\n    g Int32\n    example default\n        g = 1\nalias AT = T?\nstruct S\n    t AT\n    example default\n        t = default\n', A),
         ('map example bad key', HEAD + 'struct S\n    m Map(String, Int32)\n    example default\n        m = {1: 1}\n', R),
+        ('example without fields on a struct tree', HEAD + 'struct R\n    union\n        a RA\n    n Int32\n    example default\nstruct RA extends R\n    x Int32\n    example default\n        n = 1\n        x = 2\n', R),
+        ('example without fields, required field', HEAD + 'struct S\n    a Int32\n    example default\n', R),
+        ('example without fields, all optional', HEAD + 'struct S\n    a Int32?\n    b Int32 = 1\n    example default\n', A),
+        ('example without fields on a union', HEAD + 'union U\n    a\n    b Int32\n    example default\n', R),
     ],
     'redefinitions': [
         ('alias named like builtin', HEAD + 'alias String = Int32\n', R),
@@ -228,7 +241,7 @@ def _parse_all(specs):
             outside=['specs outside the table'], budget=(120, 300))
 def rule_case(k: int) -> bool:
     """
-    pre: 0 <= k < 20
+    pre: 0 <= k < 32
     post: _
     """
     cases = GROUPS[hx.ITEM]
